@@ -71,7 +71,23 @@ def build(md, spec):
         base = rng.uniform(0, 2.0, size=(1, n, 3))
         xyz = (base + rng.normal(0, 0.15, size=(F, n, 3))).astype(np.float32)
         t = md.Trajectory(xyz, top)
-    if spec.get("box"):
+    if spec.get("cell"):
+        # per-frame cell that varies in KIND as well as size: 'O' = rectangular (exact zeros off the diagonal),
+        # 'T' = sheared; pattern is cycled over the frames.  Coordinates deliberately reach outside the cell.
+        F = t.n_frames
+        rng = np.random.RandomState(spec.get("cell_seed", 5))
+        V = np.zeros((F, 3, 3), dtype=np.float32)
+        pat = spec["cell"]
+        lo, hi = spec.get("cell_size", [2.4, 4.2])
+        for f in range(F):
+            L = rng.uniform(lo, hi, size=3)
+            V[f] = np.diag(L).astype(np.float32)
+            if pat[f % len(pat)] == "T":
+                V[f, 1, 0] = rng.uniform(0.2, 0.45) * L[0] * rng.choice([-1, 1])
+                V[f, 2, 0] = rng.uniform(0.1, 0.45) * L[0] * rng.choice([-1, 1])
+                V[f, 2, 1] = rng.uniform(0.1, 0.45) * L[1] * rng.choice([-1, 1])
+        t.unitcell_vectors = V
+    elif spec.get("box"):
         F = t.n_frames
         rng = np.random.RandomState(7)
         L = np.tile(np.array([[3.0, 3.2, 3.4]], dtype=np.float32), (F, 1)) + rng.uniform(0, 0.2, size=(F, 3)).astype(np.float32)
@@ -106,6 +122,9 @@ def analyses(md, t0):
     A["angles"] = lambda t: list(md.compute_angles(t, trip, periodic=False))
     A["dihedrals"] = lambda t: list(md.compute_dihedrals(t, quad, periodic=False))
     if has_box:
+        A["displacements_pbc"] = lambda t: list(md.compute_displacements(t, pairs, periodic=True))
+        A["distances_pbc_noopt"] = lambda t: list(md.compute_distances(t, pairs, periodic=True, opt=False))
+        A["density"] = lambda t: list(md.density(t))
         A["distances_pbc"] = lambda t: list(md.compute_distances(t, pairs, periodic=True))
         A["angles_pbc"] = lambda t: list(md.compute_angles(t, trip, periodic=True))
         A["dihedrals_pbc"] = lambda t: list(md.compute_dihedrals(t, quad, periodic=True))
@@ -126,12 +145,28 @@ def analyses(md, t0):
     A["inertia_tensor"] = lambda t: list(md.compute_inertia_tensor(t))
     if t0.n_residues >= 5 and len(res_pairs):
         A["contacts"] = lambda t: list(md.compute_contacts(t, contacts=res_pairs, scheme="closest", periodic=False)[0])
+        if has_box:
+            A["contacts_pbc"] = lambda t: list(md.compute_contacts(t, contacts=res_pairs, scheme="closest", periodic=True)[0])
     if any(a.name == "H" or (a.element is not None and a.element.symbol == "H") for a in t0.topology.atoms) and t0.n_residues >= 5:
         A["dssp"] = lambda t: list(md.compute_dssp(t, simplified=False))
         A["kabsch_sander"] = lambda t: list(md.kabsch_sander(t))
         A["wernet_nilsson"] = lambda t: list(md.wernet_nilsson(t, periodic=False))
         A["baker_hubbard_1"] = lambda t: [md.baker_hubbard(t[i], periodic=False) for i in range(t.n_frames)]
+        if has_box:
+            A["wernet_nilsson_pbc"] = lambda t: list(md.wernet_nilsson(t, periodic=True))
+            A["baker_hubbard_pbc"] = lambda t: [md.baker_hubbard(t[i:i + 1], periodic=True) for i in range(t.n_frames)]
+            # aggregate over frames (freq=0: bonds present in at least one frame); see AGGREGATE in main()
+            A["baker_hubbard_union_pbc"] = lambda t: [np.asarray(md.baker_hubbard(t, freq=0.0, periodic=True)).reshape(-1, 3)]
+        A["baker_hubbard_union"] = lambda t: [np.asarray(md.baker_hubbard(t, freq=0.0, periodic=False)).reshape(-1, 3)]
     return A
+
+
+AGGREGATE = ("baker_hubbard_union", "baker_hubbard_union_pbc")   # whole-trajectory set == union of the per-frame sets
+
+
+def _union(rows_list):
+    s = sorted({tuple(int(v) for v in r) for rows in rows_list for r in rows})
+    return np.array(s, dtype=np.int64).reshape(-1, 3)
 
 
 def main():
@@ -148,11 +183,19 @@ def main():
         res = {}
         funcs = analyses(md, t)
         for name in payload["analyses"]:
-            if name not in funcs:
+            if name not in funcs or (spec.get("only") is not None and name not in spec["only"]):
                 continue
             g = funcs[name]
             f = lambda tr, g=g: g(tr.slice(slice(None), copy=True))   # every evaluation sees a fresh copy of its input
             try:
+                if name in AGGREGATE:
+                    whole = _union(f(t))
+                    singles = _union([f(t[i])[0] for i in range(F)])
+                    wperm = _union(f(tp))
+                    res[name] = {"company": [h(whole)] * F, "alone": [h(singles)] * F, "perm": [h(wperm)] * F,
+                                 "repeat_equal": h(_union(f(t))) == h(whole), "dmax_alone": 0.0, "dmax_perm": 0.0,
+                                 "n_bonds": int(len(whole))}
+                    continue
                 company = f(t)
                 rec = {"company": [h(x) for x in company]}
                 reps = [[h(x) for x in f(t)] for _ in range(max(0, payload.get("repeats", 1) - 1))]
